@@ -243,4 +243,20 @@ CHECKS = {
              "shards": {"quick": 6, "thorough": 16}, "timeout": {"quick": 600, "thorough": 7200}},
         ],
     },
+    "C07": {
+        "rule": ("ClientHellos captured from real crypto/tls clients with generated configurations: server names (fixed list incl. long, punycode, upper case, IP literal, none; generated "
+                 "FQDNs), 0-8 ALPN protocols (lengths up to 255), every min/max version pair 1.0-1.3, cipher-suite subsets, curve permutations, tickets on/off, resumption after a real "
+                 "handshake with an in-process server (ticket / PSK extensions); one in three hellos is mutated at byte level with lengths kept consistent (GREASE/unknown extensions "
+                 "inserted, extension order permuted, an extension dropped, a second non-host name in the SNI list plus padding) and kept only if crypto/tls's server still accepts it. "
+                 "Oracle (differential): the same bytes go to a crypto/tls server whose GetConfigForClient captures ClientHelloInfo; parse result, MatchTLS verdict with generated sni/alpn "
+                 "sub-matchers, placeholders, 'incomplete is undecided' and 'non-handshake never matches'. Non-trivial = SNI and >= 1 ALPN protocol, or resumption, or a restricted "
+                 "version range; distinct = distinct (hello bytes, matcher config)."),
+        "assumptions": ["a ClientHello split across several TLS records is out of scope (the matcher reads one record by design; crypto/tls never emits that below 16 KiB)",
+                        "run with the default toolchain go1.23; hellos of a newer crypto/tls (post-quantum key shares) can be explored by running the thorough tier under go1.26.8"],
+        "min_classes": {"quick": {"C07/resumption-hello": 30, "C07/mutated-grease": 15, "C07/mutated-permuted": 15, "C07/verdict/true": 80, "C07/verdict/false": 80}},
+        "runs": [
+            {"name": "differential", "pkg": "./c07", "run": ".", "rapid_checks": {"quick": 120, "thorough": 20000},
+             "shards": {"quick": 6, "thorough": 16}, "timeout": {"quick": 600, "thorough": 7200}},
+        ],
+    },
 }
